@@ -2193,6 +2193,50 @@ def run_large(ctx: Ctx):
     flush(ctx, pend)
 
 
+# ----------------------------------------------------------------------------- algebra + with operands narrower than the manifold dimension
+
+def run_algshort(ctx: Ctx):
+    """`x + other` on algebra elements with `other` of every width 0..m-1 (and m, m+2 as controls): the code's `x + other[..., :m]` is a
+    plain torch addition, so width 1 broadcasts and widths 0, 2..m-1 raise; the model's `algAdd` must give the same outcome class and
+    values.  (Observation, not a property clause: the property speaks about operands of at least the manifold dimension.)"""
+    P = U.pp()
+    lines, metas = [], []
+    for name in U.GROUPS:
+        A = U.ADIM[name]
+        algT = getattr(P, U.ALG[name] + "_type")
+        for dtype in ("float64", "float32"):
+            D, e = U.dt(dtype), teps(dtype)
+            xrow = [0.25 * (i + 1) * (-1) ** i for i in range(A)]
+            for w in list(range(0, A)) + [A, A + 2]:
+                orow = [1.5 - 0.5 * i for i in range(w)]
+                for api in ("+", "add(alpha=-2)", "add_"):
+                    alpha = -2.0 if api.startswith("add(") else 1.0
+                    x = P.LieTensor(torch.tensor([xrow, xrow], dtype=D), ltype=algT)
+                    o = torch.tensor([orow, orow], dtype=D).reshape(2, w)
+                    case = {"stream": "algshort", "type": name, "dtype": dtype, "width": w, "api": api}
+                    ctx.note_case(("algshort", name, dtype, w, api), True)
+                    ctx.count(f"algshort.width{'<m' if w < A else '>=m'}")
+                    try:
+                        z = (x + o) if api == "+" else (x.add(o, alpha=alpha) if api.startswith("add(") else x.clone().add_(o))
+                        got, raised = z.tensor().double()[0].tolist(), None
+                    except Exception as ex:
+                        got, raised = None, type(ex).__name__
+                    lines.append(f"{U.ALG[name]}.add " + common.wire_list([e, alpha] + xrow + orow))
+                    metas.append((case, got, raised))
+    for rep, (case, got, raised) in zip(ctx.driver.run(lines), metas):
+        st, toks = common.parse_reply(rep)
+        if st != "ok":
+            if raised is None:
+                ctx.disagree("algshort", case, f"algebra {case['api']} with an operand of width {case['width']} ({case['type']}): model rejects, the code returns {got}")
+            continue
+        if raised is not None:
+            ctx.disagree("algshort", case, f"algebra {case['api']} with an operand of width {case['width']} ({case['type']}): the code raised {raised}, the model returns a value")
+            continue
+        want = [float(common.from_wire(t)) for t in toks if t]
+        if len(want) != len(got) or max(abs(g - v) for g, v in zip(got, want)) > 8 * teps(case["dtype"]) * 4:
+            ctx.disagree("algshort", case, f"algebra {case['api']} width {case['width']} ({case['type']}, {case['dtype']}): {got} vs model {want}")
+
+
 # ----------------------------------------------------------------------------- entry points
 
 def run(ctx: Ctx):
@@ -2217,6 +2261,7 @@ def run(ctx: Ctx):
     run_large(ctx)
     run_corpus(ctx)
     run_dispatch(ctx, ctx.pick(120, 2000))
+    run_algshort(ctx)
     run_ops(ctx, ctx.pick(450, 7000))
     run_laws(ctx, ctx.pick(160, 5000))
     run_jinvp_oracle(ctx, ctx.pick(90, 2500))
